@@ -103,6 +103,7 @@ pub fn check_on(c: &Case, ctx: &mut Ctx, ind: &mut Ind) -> Result<(), Failure> {
     let name = k.name();
     let mscale = if k.has_mult() { m.abs().max(1.0) } else { 1.0 };
     for i in 0..len {
+        crate::tele::step(ind, &c.cfg);
         let (out, bar, x) = if c.scalar {
             let x = c.xs[i].0;
             fp.f(x);
@@ -415,6 +416,9 @@ pub fn run(g: &mut Global) {
     let tier = g.tier;
     g.random("random", g.tier.pick(40000, 300000), &move || strategy(tier), &check);
     g.random("long", g.tier.pick(64, 800), &long_strategy, &check);
+    // identity events (tele.rs): at one or two steps the instance is replaced by its clone, by a used instance
+    // (same or longer periods) that clone_from()s it, or by its serde round trip; nothing may change
+    g.random("events", g.tier.pick(12000, 100000), &move || crate::tele::wrap(strategy(tier)), &|t: &crate::tele::TCase<Case>, ctx: &mut Ctx| crate::tele::check_wrapped(t, ctx, if t.case.scalar { t.case.xs.len() } else { t.case.bars.len() }, t.case.cfg.n(), check));
     // the same formulas after reset(): t counts inputs since the reset; resets at multiples of the period, next to
     // them, anywhere, and a second reset before the window refilled
     g.random("resets", g.tier.pick(20000, 150000), &reset_strategy, &check_resets);
